@@ -432,7 +432,17 @@ def replay(r):
     oa = _flat(a(tf.constant(x)), tf).numpy()
     ob = _flat(b(tf.constant(x)), tf).numpy()
     d = float(np.max(np.abs(oa - ob)))
-    return dict(reproduced=bool(d > 1e-5 * max(1.0, float(np.max(np.abs(oa))))), detail=dict(original=oa.tolist(), rebuilt=ob.tolist()))
+    det = dict(original=oa.tolist(), rebuilt=ob.tolist())
+    bad = bool(d > 1e-5 * max(1.0, float(np.max(np.abs(oa)))))
+    for i, (u, v) in enumerate(zip(a.weights, b.weights)):
+      if ('w%d' % i) in w and u.constraint is not None and v.constraint is not None:
+        W = tf.constant(core.witness_np(w['w%d' % i]).astype(np.float32))
+        cu, cv = u.constraint(W).numpy(), v.constraint(W).numpy()
+        dc = float(np.max(np.abs(cu - cv)))
+        det['constraint_%d' % i] = dict(original=cu.tolist(), rebuilt=cv.tolist())
+        if dc > 1e-5 * max(1.0, float(np.max(np.abs(cu)))):
+          bad = True
+    return dict(reproduced=bad, detail=det)
   for label, thunk in _premades():
     if label == rp['label']:
       a = thunk()
